@@ -109,7 +109,7 @@ def certificate(ctx, N, W, S, lam, rho0, rec, case, cb, abs_tol=1e-6, rel_tol=1e
 
 def run(ctx):
     rng = np.random.default_rng(ctx.seed)
-    ctx.proof_layer(allowed_axioms=R_AX, coq_deps=["Corr/RunAdmm"], gen=["unique_values", "solver", "solver_loop", "admm_front"])
+    ctx.proof_layer(allowed_axioms=R_AX, coq_deps=["Corr/RunAdmm"], gen=["unique_values", "solver", "solver_loop", "admm_front", "aa_shallow", "aa_deep"])
     core.note_drift(ctx, ANCHORS)
     cov = core.LineCoverage()
     hist = {"NW": {}, "iterations_max": 0, "not_converged": 0, "lam": {}, "cov": {}}
